@@ -29,23 +29,27 @@ type Mutation struct {
 // ScriptPlan describes one hello built by the toolbox client and fed to a
 // fresh NewConn over a scripted transport.
 type ScriptPlan struct {
-	Keys        []KeySpec `json:"keys"`      // keys of the client-facing server
-	Target      KeySpec   `json:"target"`    // key the client encrypts to
-	SuiteIdx    int       `json:"suite_idx"` // which of Target.Suites the client uses
-	InnerSNI    string    `json:"inner_sni"`
-	InnerALPN   []string  `json:"inner_alpn,omitempty"`
-	ExtraIn     int       `json:"extra_in"`
-	ExtraOut    int       `json:"extra_out"`
-	MaxData     int       `json:"max_data"`
-	Pad         int       `json:"pad"`
-	Compress    bool      `json:"compress"`
-	NoECH       bool      `json:"no_ech,omitempty"` // plain hello without ECH (pass-through family)
-	Grease      bool      `json:"grease,omitempty"` // GREASE ECH extension (random payload)
-	TLS13       bool      `json:"tls13"`
-	NoVersions  bool      `json:"no_versions,omitempty"`
-	RecVer      uint16    `json:"rec_ver"`
-	LegacyVer   uint16    `json:"legacy_ver,omitempty"`  // ClientHello.legacy_version of a plain hello (0 = 0x0303)
-	Compression []byte    `json:"compression,omitempty"` // legacy_compression_methods of a plain hello (nil = {0})
+	Keys       []KeySpec `json:"keys"`      // keys of the client-facing server
+	Target     KeySpec   `json:"target"`    // key the client encrypts to
+	SuiteIdx   int       `json:"suite_idx"` // which of Target.Suites the client uses
+	InnerSNI   string    `json:"inner_sni"`
+	InnerALPN  []string  `json:"inner_alpn,omitempty"`
+	ExtraIn    int       `json:"extra_in"`
+	ExtraOut   int       `json:"extra_out"`
+	MaxData    int       `json:"max_data"`
+	Pad        int       `json:"pad"`
+	Compress   bool      `json:"compress"`
+	NoECH      bool      `json:"no_ech,omitempty"` // plain hello without ECH (pass-through family)
+	Grease     bool      `json:"grease,omitempty"` // GREASE ECH extension (random payload)
+	TLS13      bool      `json:"tls13"`
+	NoVersions bool      `json:"no_versions,omitempty"`
+	// ExtBlock (hellos without ECH that do not offer TLS 1.3): "none" = the
+	// hello ends after the compression methods, "empty" = an extensions block
+	// of length zero.
+	ExtBlock    string `json:"ext_block,omitempty"`
+	RecVer      uint16 `json:"rec_ver"`
+	LegacyVer   uint16 `json:"legacy_ver,omitempty"`  // ClientHello.legacy_version of a plain hello (0 = 0x0303)
+	Compression []byte `json:"compression,omitempty"` // legacy_compression_methods of a plain hello (nil = {0})
 	// HRRThenHello2 (pass-through family): the backend answers with a
 	// HelloRetryRequest and the client repeats its hello; both must pass untouched.
 	HRRThenHello2 bool `json:"hrr_then_hello2,omitempty"`
@@ -174,6 +178,9 @@ func buildScript(seed uint64, p *ScriptPlan) (*built, error) {
 		if len(p.Compression) > 0 {
 			h.Compression = p.Compression
 		}
+		if p.ExtBlock != "" && !p.Grease {
+			h.Exts, h.NoExtBlock = nil, p.ExtBlock == "none"
+		}
 		b.outer = h
 		b.outerRec = h.Record(recVer)
 		if len(b.outerRec) > 5+16384 {
@@ -207,6 +214,23 @@ func buildScript(seed uint64, p *ScriptPlan) (*built, error) {
 	if hasMut(p.Mutations, "inner-ech-empty") != nil {
 		i := inner.Find(echbox.ExtECH)
 		inner.Exts[i].Data = nil
+	}
+	if m := hasMut(p.Mutations, "inner-ech-type"); m != nil {
+		// the inner hello's ECH extension is neither of the two defined types
+		i := inner.Find(echbox.ExtECH)
+		inner.Exts[i].Data = []byte{byte(2 + m.A%254)}
+	}
+	if m := hasMut(p.Mutations, "inner-ech-twice"); m != nil {
+		// the inner-type marker appears twice in the inner hello
+		at := m.A % (len(inner.Exts) + 1)
+		inner.Exts = slices.Insert(inner.Exts, at, echbox.Ext{Type: echbox.ExtECH, Data: []byte{1}})
+		if to > from {
+			if at <= from {
+				from, to = from+1, to+1
+			} else if at < to {
+				from, to = 0, 0 // the run is broken up: send the inner hello uncompressed
+			}
+		}
 	}
 	if hasMut(p.Mutations, "inner-no-tls13") != nil {
 		// only the inner hello stops offering TLS 1.3 (the generator disables
@@ -481,6 +505,18 @@ func buildScript(seed uint64, p *ScriptPlan) (*built, error) {
 			o2.Exts[pair.EchIdx].Data = e.Bytes()
 		case "trunc-enc":
 			e.Enc = e.Enc[:m.A%len(e.Enc)]
+			o2.Exts[pair.EchIdx].Data = e.Bytes()
+		case "bad-enc": // an encapsulated key the KEM cannot use: wrong length, or a low-order point
+			switch m.A % 4 {
+			case 0:
+				e.Enc = e.Enc[:len(e.Enc)-1]
+			case 1:
+				e.Enc = append(append([]byte{4}, e.Enc...), e.Enc...) // the size of an uncompressed P-256 point
+			case 2:
+				e.Enc = make([]byte, len(e.Enc))
+			case 3:
+				e.Enc = append(e.Enc[:0:0], bytes.Repeat(e.Enc, 35)...) // the size of a hybrid KEM share
+			}
 			o2.Exts[pair.EchIdx].Data = e.Bytes()
 		case "trunc-payload":
 			e.Payload = e.Payload[:1+m.A%(len(e.Payload)-1)]
